@@ -242,6 +242,17 @@ func scribble(c *CfgCore) {
 	if c.Set != nil {
 		c.Set[poisonS] = struct{}{}
 	}
+	for _, m := range c.SM {
+		if m != nil {
+			m[poisonS] = poisonI
+		}
+	}
+	for k, l := range c.MM {
+		for i := range l {
+			l[i] = poisonS
+		}
+		c.MM[k] = append(l, poisonS)
+	}
 	c.Nest.S = poisonS
 	if c.Nest.X != nil {
 		*c.Nest.X = poisonI
